@@ -368,6 +368,23 @@ def leg_t(wd, tier, binary, verdict, race_binary=None):
                 samples=res["samples"] + resc["samples"], distinct=res["distinct"] + resc["distinct"])
 
 
+def leg_g(wd, tier, binary, verdict, case=None):
+    """Gated pairs: every operation A x every call A makes out of the wallet x every operation B
+    on the real wallet; TLC searches the linearization (WalletFundTrace!TPar)."""
+    env = {"VERIF_HOLD_MS": 60 if tier == "quick" else 150, "VERIF_WORKERS": 24, "VERIF_SHARDS": 6}
+    if case:
+        env["VERIF_GATE_CASE"] = case
+    res = vlib.go_run(binary, "TestGated", wd, env=env, timeout=1800)
+    verdict.add_all(res["mismatches"])
+    tv = validate_all(wd, "walletfund-g-", verdict, "gate")
+    c = res["counts"]
+    log("  T(iii): %d gated pairs (%d distinct gate points; B ran to completion while A was parked in %d, waited for A in %d) / %d events in %.1fs; TLC found a linearization for all but %d, %d divergences reported, %.1fs"
+        % (c.get("cases", 0), c.get("gate_points", 0), c.get("b-completed-while-a-parked", 0), c.get("b-waited-for-a", 0),
+           tv["events"], res["wall"], tv["rejected"], tv["reported"], tv["wall"]))
+    return dict(cases=c.get("cases", 0), gate_points=c.get("gate_points", 0), counts=c, samples=res["samples"],
+                distinct=res["distinct"], sessions=res["traces"], **tv)
+
+
 # ------------------------------------------------------------------ entry points
 
 def run(tier):
@@ -376,11 +393,14 @@ def run(tier):
     verdict = vlib.Verdict(PROP)
     binary = vlib.go_build(PKG, wd)
     race_binary = vlib.go_build(PKG, wd, race=True) if tier == "thorough" else None
-    ms = leg_m(wd, tier)
-    rr = leg_r(wd, tier, binary, verdict)
+    with cf.ThreadPoolExecutor(max_workers=1) as bg:      # the model runs while the real wallet is replayed
+        fm = bg.submit(leg_m, wd, tier)
+        rr = leg_r(wd, tier, binary, verdict)
+        ms = fm.result()
     tt = leg_t(wd, tier, binary, verdict, race_binary)
+    gg = leg_g(wd, tier, binary, verdict)
     rc = verdict.finish()
-    ok_traces = (rr["traces"] - rr["tv"]["rejected"]) + (tt["seq"]["sessions"] - tt["seq"]["rejected"]) + (tt["conc"]["sessions"] - tt["conc"]["rejected"])
+    ok_traces = (rr["traces"] - rr["tv"]["rejected"]) + (tt["seq"]["sessions"] - tt["seq"]["rejected"]) + (tt["conc"]["sessions"] - tt["conc"]["rejected"]) + (gg["sessions"] - gg["rejected"])
     cov = {
         "states": sum(m.distinct for m in ms) + rr["tlc_states"], "transitions": sum(m.generated for m in ms) + rr["tlc_transitions"],
         "traces_validated_against_impl": ok_traces,
@@ -390,11 +410,12 @@ def run(tier):
                   "bounds": "<= 3 initial outputs, <= 2-3 requests, <= 2 ticks, option sets {default-like, all-zero, tiny}; every interleaving and EVERY admissible selection within the bounds; multi-batch Redistribute (incl. partial success) with batch size 1 in the model"},
         "replay": {k: rr[k] for k in ("graphs", "inits", "states", "edges", "covered", "full", "paths", "steps", "onpath", "diverged", "skipped", "timing_dropped")},
         "replay_trace_validation": rr["tv"],
-        "trace_validation": {"sequential": tt["seq"], "concurrent": tt["conc"]},
-        "evaluations": rr["steps"] + tt["seq"]["events"] + tt["conc"]["events"],
-        "distinct_nontrivial": rr["distinct"] + tt["distinct"],
+        "trace_validation": {"sequential": tt["seq"], "concurrent": tt["conc"], "gated_pairs": {k: v for k, v in gg.items() if k != "samples"}},
+        "evaluations": rr["steps"] + tt["seq"]["events"] + tt["conc"]["events"] + gg["events"],
+        "distinct_nontrivial": rr["distinct"] + tt["distinct"] + gg["distinct"],
         "rule": "R: one evaluation per replayed call of an edge-cover path (reply and all views compared with the policy edge while on it), distinct by (options, initial wallet, call, expected views); "
-                "T: every wallet call / chain event of a random or concurrent session is one TLC-validated event, distinct by (seed, session)",
+                "T: every wallet call / chain event of a random or concurrent session is one TLC-validated event, distinct by (seed, session); "
+                "gated pairs: one session per (pre-state, operation A, call A makes out of the wallet, operation B), TLC searching the linearization",
         "known_findings_hit": dict(verdict.known),
     }
     vlib.write_evidence(PROP, tier, "model_checking", cov, ASSUMPTIONS, time.time() - t0, len(verdict.violations))
@@ -413,6 +434,9 @@ def replay(path):
         res = vlib.go_run(binary, "TestReplayOne", wd, env={"VERIF_IN": path})
         verdict.add_all(res["mismatches"])
         validate_all(wd, "walletfund-one-", verdict, "replay" if kind == "path" else "trace")
+    elif kind == "gate":
+        c = rp["case"]
+        leg_g(wd, "thorough", binary, verdict, case="%s/%s@%s#%d/%s" % (c["pre"], c["a"], c["gate"], c["nth"], c["b"]))
     elif kind == "trace":
         p = os.path.join(wd, "walletfund-one-0.ndjson")
         with open(p, "w") as f:
